@@ -92,9 +92,9 @@ theorem TriPixels.new_colourless (t : Tri) (style : TriStyle) (h : style.isTrans
 theorem triPixels_transparent (t : Tri) (style : TriStyle) (h : style.isTransparent = true)
     (ps : List (Pt × Nat)) (hps : triPixels t style = some ps) : ps = [] := by
   unfold triPixels at hps
-  cases hb : triStyledBoundingBox t style with
+  cases hb : triPixelFuel t style with
   | none => rw [hb] at hps; cases hps
-  | some bb =>
+  | some fuel =>
     rw [hb] at hps
     simp only [Option.bind_eq_bind, Option.bind_some] at hps
     cases hn : TriPixels.new t style with
